@@ -213,6 +213,8 @@ def deepest_last(cats):
 
 
 def shape(kind, written, ins, outs):
+    if isinstance(outs, list) and len(outs) == 2 and outs[0] == "err" and isinstance(outs[1], str):
+        return f"{kind}: raised {outs[1]} on an input inside the function's domain"
     if not isinstance(outs, list) or len(outs) != len(ins):
         return f"{kind}: returned {outs if not isinstance(outs, list) else len(outs)} for {len(ins)} events"
     for n, (a, b) in enumerate(zip(ins, outs)):
@@ -329,7 +331,7 @@ class C19(Prop):
         "hand-written boundary cases; every list of <=2 (thorough: <=3 over a smaller pool) (category|tag, rule) pairs "
         "over {empty, two patterns} x ignore_case x select_keys{none, hit, miss/non-string} x categories of depth 0..2 "
         "on four fixed events; the full Rule.match matrix of the rule pool x string/non-string/unicode data; seeded "
-        "random rule lists (0..7 rules, ties, equal depths, duplicate tags, empty/None/absent regex, select_keys "
+        "random rule lists (0..12 rules, ties, equal depths, duplicate tags, empty/None/absent regex, select_keys "
         "None/[]/missing/non-string hits, unicode case pairs) x random event lists; url pool + random urls incl. www. "
         "variants and urlparse errors; title pool x key x app presence incl. missing key / non-string value; "
         "non-trivial = some rule matched and some did not / url present / substitution changed the value"
@@ -404,7 +406,7 @@ class C19(Prop):
         rng = ctx.rng("c19")
         for _ in range(ctx.pick(2500, 60000)):
             evs = rnd_events(rng, lambda: rnd_data(rng))
-            n = rng.choice([0, 1, 2, 3, 4, 5, 7])
+            n = rng.choice([0, 1, 2, 3, 4, 5, 7, 12])
             kind = rng.choice(["categorize", "categorize", "tag", "match"])
             if kind == "categorize":
                 rules = [[list(rng.choice(CATS)), rnd_spec(rng)] for _ in range(n)]
@@ -523,10 +525,41 @@ class C19(Prop):
         out = t.list(lambda: t_event(t))
         return {"out": out, "inp": out if k == "spliturl" else ins}
 
+    def in_domain(self, case):
+        """the inputs the property speaks about (split_url_events: urlparse accepts every url;
+        simplify_string: the key is present with a string value)"""
+        k = case["k"]
+        if k == "spliturl":
+            return all("url" not in e[3] or (isinstance(e[3]["url"], str) and url_parts(e[3]["url"]) is not None) for e in case["events"])
+        if k == "simplify":
+            return all(isinstance(e[3].get(case["key"]), str) for e in case["events"])
+        return True
+
     def same(self, case, impl_out, model_out):
-        # the property (and the correspondence) is about the returned events; what happens to the
-        # caller's objects is recorded in the evidence histogram (features), not compared
-        return impl_out["out"] == model_out["out"]
+        """The correspondence is compared on what the property is about: the returned events - id,
+        timestamp, duration, the entries under unwritten keys in dict order, and the written keys
+        (categorize/tag/match: their exact values; split_url_events/simplify_string: present, with a
+        string). The exact strings written by split_url_events/simplify_string, the behaviour outside
+        the functions' domain, and what happens to the caller's objects are compared too but only
+        recorded in the evidence histogram (see `features`): the property does not speak about them,
+        so a change there must not raise an alarm."""
+        k = case["k"]
+        a, b = impl_out["out"], model_out["out"]
+        self._exact = (id(case), a == b)
+        if k == "match" or a == b:
+            return a == b
+        if not self.in_domain(case):
+            return True
+        written = WRITTEN.get(k) or [case["key"]]
+        exact_vals = k in ("categorize", "tag")
+
+        def proj(o):
+            if not isinstance(o, list) or o[:1] == ["err"]:
+                return o
+            return [[e[0], e[1], e[2], [kv for kv in e[3] if kv[0] not in written],
+                     sorted([kk, v if exact_vals else v[0]] for kk, v in e[3] if kk in written)] for e in o]
+
+        return proj(a) == proj(b)
 
     # ---- the property -------------------------------------------------------------------------------
     def oracle(self, case, out):
@@ -599,7 +632,9 @@ class C19(Prop):
         k, o = case["k"], out["out"]
         fs = []
         if o[:1] == ["err"] and len(o) == 2 and isinstance(o[1], str):
-            return [f"{k}:raises-{o[1]}"]
+            ex = getattr(self, "_exact", None)
+            return [f"{k}:raises-{o[1]}"] + (["model-vs-code:" + ("identical-output" if ex[1] else "DIFFERS-only-where-the-property-is-silent") + "(outside-domain)"]
+                                             if ex and ex[0] == id(case) else [])
         if k in ("categorize", "tag", "match"):
             specs = case["rules"] if k == "match" else [s for _, s in case["rules"]]
             for s in specs:
@@ -640,6 +675,10 @@ class C19(Prop):
             for a, b in zip(case["events"], o):
                 fs.append("simplify:" + ("changed" if canon_in(a) != b else "unchanged") + ("+app" if "app" in a[3] and case["key"] == "title" else ""))
         # what happened to the caller's objects (not part of the property; recorded only)
+        ex = getattr(self, "_exact", None)
+        if ex and ex[0] == id(case):
+            fs.append(("model-vs-code:identical-output" if ex[1] else "model-vs-code:DIFFERS-only-where-the-property-is-silent")
+                      + ("" if self.in_domain(case) else "(outside-domain)"))
         if k != "match":
             ins = [canon_in(e) for e in case["events"]]
             if k == "simplify":
